@@ -55,6 +55,8 @@ class Model(object):
         self.uas = 0
         self.subs = {}       # material name -> {'bindings': [flags], 'revoked': bool, 'signing': bool}
         self.key_revoked = False
+        self.direct = 0        # direct-key self-signatures (0x1F) issued so far, incl. designated-revoker ones
+        self.revokers = []     # (fingerprint of the designated revoker, sensitive?)
         self.removed = []
         self.protected = None
         self.clock = 0
@@ -196,10 +198,15 @@ class Actor(object):
                 m.key_revoked = True
             elif op == 'direct':
                 k |= k.certify(k, created=m.tick())
+                m.direct += 1
             elif op == 'add_revoker':
                 if not others:
                     return False
-                k |= k.revoker(pick(others).k.pubkey, created=m.tick())
+                o = pick(others)
+                sens = (m.clock // 60) % 2 == 1
+                k |= k.revoker(o.k.pubkey, sensitive=sens, created=m.tick())
+                m.direct += 1
+                m.revokers.append((str(o.k.fingerprint), sens))
             elif op == 'del_uid':
                 if len(live) < 2:
                     return False
@@ -282,6 +289,11 @@ def check_actor(ctx, a, where):
         for t in m.removed:
             if t.encode() in blob:
                 ctx.fail('removed-identity-still-exported', dict(where, form=form, uid=t))
+        # (3b) direct-key self-signatures (designated revokers among them, sensitive or not) all arrive
+        mine = str(pk.fingerprint)[-16:]
+        nd = sum(1 for s_ in pk.__sig__ if s_.type == 0x1F and s_.signer == mine)
+        if nd != m.direct:
+            ctx.fail('direct-key-self-signatures-differ-from-model', dict(where, form=form, got=nd, expected=m.direct, designated_revokers=m.revokers))
         # (4) revocations reported for exactly the revoked components
         if bool(list(pk.revocation_signatures)) != m.key_revoked:
             ctx.fail('key-revocation-report', dict(where, form=form, reported=len(list(pk.revocation_signatures)), expected=m.key_revoked))
